@@ -79,6 +79,10 @@ namespace dllexports
         sqf::runtime::runtime::runtime_conf conf;
         auto duration = std::chrono::duration<float>(max_runtime_seconds);
         auto durationCasted = std::chrono::duration_cast<std::chrono::milliseconds>(duration);
+        if (max_runtime_seconds > 0 && durationCasted < duration)
+        { // round up: a limit below one millisecond must not turn into "no limit"
+            durationCasted += std::chrono::milliseconds(1);
+        }
         conf.max_runtime = durationCasted;
         conf.disable_sleep = false;
         conf.enable_classname_check = true;
